@@ -53,12 +53,15 @@ CHECKS = {
                 tech="Kani/CBMC bounded model checking of macro-generated impls against std-derived twins"),
     "C13": dict(engine="E1 kani-gen", ref="DESIGN.md §6 C13",
                 text="Kani/CBMC decides for all values that representative programs of every trait family still compute the reference results when fields/variants/types/parameters carry the "
-                     "expansion's own identifiers, the use site shadows prelude and core names through a glob import, and field types have wrong-answer inherent methods named like the trait methods.",
-                note=E1_NOTE + " Restricted claim: silent capture (what the impls compute); whether a renamed program compiles is rustc's verdict; #![no_std] not examined.",
+                     "expansion's own identifiers (also user items called like the generics of nested helper functions), the use site shadows prelude and core names through a glob import, and field types "
+                     "and the derived types themselves have wrong-answer inherent methods named like the trait methods.",
+                note=E1_NOTE + " Restricted claim: silent capture (what the impls compute); whether a renamed program compiles is rustc's verdict; #![no_std] is not built - instead the real "
+                     "expansion of a corpus is scanned natively for paths through std / alloc (sampling, said so in the evidence).",
                 tech="Kani/CBMC bounded model checking of macro-generated impls under hostile names and scopes"),
     "C15": dict(engine="E1 kani-gen", ref="DESIGN.md §6 C15",
                 text="Kani/CBMC decides for all values that the same type derived through the attribute macro, through #[derive(Ex)], with split / reordered lists and with supersets of co-derived "
-                     "traits has identical derived methods; plus E3 obligations on the entry functions, DeriveEntry::from_root and from_args_list (same initial attribute kinds, lists merged, entries in list order).",
+                     "traits has identical derived methods (comparison / Hash, Clone / Default incl. type-level values, Debug with helper attributes); plus E3 obligations on the entry functions, "
+                     "DeriveEntry::from_root and from_args_list (same initial attribute kinds, lists merged, entries in list order, every entry's arguments are its own).",
                 note=E1_NOTE + " Restricted claim: behavioural equality, not token equality of expansions.",
                 tech="Kani/CBMC metamorphic equivalence of macro-generated impls + symbolic execution of rustc MIR for the entry-point kernel"),
     "C11": dict(engine="E1 kani-gen", ref="DESIGN.md §6 C11",
@@ -92,14 +95,18 @@ CHECKS = {
                      "The attribute parser is outside (the check starts from parsed entries).",
                 tech="symbolic execution of rustc MIR + z3, encoder validation against the real macro, native replay of models"),
     "C14": dict(engine="E3 mir-smt", ref="DESIGN.md §3, §6 C14",
-                text="Symbolic path execution of the attribute-ownership kernel (HelperAttributeKinds::{is_match, extend}, remove_attrs, the two attribute-macro entry functions) with z3. "
+                text="Symbolic path execution of the attribute-ownership kernel with z3: HelperAttributeKinds::{is_match, extend} against the documentation table, remove_attrs on vectors of 0..3 "
+                     "(thorough 0..5) symbolic attributes (kept == the non-matching ones, in order, no panic), the attribute-macro entry functions and lib.rs. "
                      "Restricted scope: token-for-token survival of the rest of the item is not decided.",
-                note="Trusted: rustc's MIR dump, executor semantics, z3. Restricted claim: which attributes are stripped, at all three levels, also when derivation fails.",
+                note="Trusted: rustc's MIR dump, executor semantics, z3. Restricted claim: which attributes are stripped, at all three levels, also when derivation fails. Obligations that are "
+                     "facts about the code's structure become a VIOLATION only when a native probe of the behaviour they stand for fails (vlib/probes.py), otherwise INCONCLUSIVE.",
                 tech="symbolic execution of rustc MIR + z3"),
     "C17": dict(engine="E3 mir-smt", ref="DESIGN.md §3, §6 C17",
                 text="Symbolic path execution of build_eq_body / build_eq_checker / build_compare_op with z3: the hidden assertion applies the Eq-bounded helper to exactly the compared "
-                     "components, the helper carries the Eq bound and sits in a type-checked function item. Restricted scope: that rustc rejects a non-Eq argument is not re-checked.",
-                note="Trusted: rustc's MIR dump, executor semantics, z3. Macro side of the assertion only.",
+                     "components and its tokens end up in the returned stream (for enums inside the arm matched by the field's own variant; token streams followed as objects), the helper carries the Eq "
+                     "bound and sits in a type-checked function item. Restricted scope: that rustc rejects a non-Eq argument is not re-checked.",
+                note="Trusted: rustc's MIR dump, executor semantics, z3. Macro side of the assertion only. Models are replayed in three written forms (named fields, generic fields under an explicit "
+                     "bound(), tuple variants with an ignored field in front).",
                 tech="symbolic execution of rustc MIR + z3, native replay of models"),
     "C19": dict(engine="E3 mir-smt", ref="DESIGN.md §6 C19",
                 text="Symbolic path execution with z3 of the dump kernel: DeriveEntry::from_args_list (an entry's flag is list.dump || own.dump of exactly its list / trait, all flags and "
